@@ -21,6 +21,7 @@ import RefurbVerif.Wire.Stringify
 import RefurbVerif.Wire.Types
 import RefurbVerif.Wire.Pos
 import RefurbVerif.Wire.Checks
+import RefurbVerif.Wire.Run
 
 open Lean RefurbVerif
 
@@ -39,7 +40,7 @@ def handle (j : Json) : Json :=
   | "explain" => handleExplain j
   | v =>
     match [Wire.handleSettings, Wire.handleReport,
-        Wire.handlePaths, Wire.handleNoqa, Wire.handleGen, Wire.handleLoader, Wire.handleLifecycle, Wire.handleGates, Wire.handleTree, Wire.handlePipeline, Wire.handleEquiv, Wire.handleStringify, Wire.handleTypes, Wire.handlePos, Wire.handleChecks].findSome? (fun h => h v j) with
+        Wire.handlePaths, Wire.handleNoqa, Wire.handleGen, Wire.handleLoader, Wire.handleLifecycle, Wire.handleGates, Wire.handleTree, Wire.handlePipeline, Wire.handleEquiv, Wire.handleStringify, Wire.handleTypes, Wire.handlePos, Wire.handleChecks, Wire.handleRun].findSome? (fun h => h v j) with
     | some r => r
     | none => Json.mkObj [("error", s!"unknown verb {v}")]
 
